@@ -95,14 +95,6 @@ get_output_dim = Contract(
          "the model (checked on the bounded rung)",
 )
 
-# the set-valued property is not in the engine's subset (double comprehension into a set): assumed, bounded-checked
-mapspec_input_indices = Contract(
-    f"{F}::MapSpec.input_indices", params={"self": MapSpecT}, returns=TSet(TStr), trusted=True,
-    ensures=lambda S, a, r, post: ({"set-of-named-input-axes": r == {ax for x in a.self.inputs for ax in x.axes
-                                                                    if ax is not None}} if not S.symbolic else {}),
-    note="set comprehension with two generators: outside the engine's subset; its cardinality enters output_key",
-)
-
 mapspec_output_key = Contract(
     f"{F}::MapSpec.output_key", params={"self": MapSpecT, "shape": SI, "linear_index": TInt}, returns=SI,
     requires=lambda S, a: {"positive-dims": all_pos(S, a.shape)},
@@ -125,23 +117,13 @@ def _n_input_indices(S, ms):
 
 
 ALL += [arrayspec_rank, arrayspec_validate, mapspec_input_names, mapspec_output_names, get_output_dim,
-        mapspec_input_indices, mapspec_output_key]
+        mapspec_output_key]
 
 
 # ---- MapSpec.input_keys: which element of every input a call with linear index l receives (C01) ----------------------
 from pyvc.types import TDict as _TDict  # noqa: E402
 
 from .ty import SK, TKey  # noqa: E402
-
-mapspec_external_indices = Contract(
-    f"{F}::MapSpec.external_indices", params={"self": MapSpecT}, returns=SS, trusted=True,
-    ensures=lambda S, a, r, post: ({"output-axes-shared-with-inputs": list(r) == [
-        ax for ax in a.self.outputs[0].axes if ax is not None and any(ax in x.axes for x in a.self.inputs)]}
-        if not S.symbolic else {}),
-    note="filter of the output axes by membership in a set built by a two-generator comprehension: outside the "
-         "engine's subset; checked on the bounded rung",
-)
-
 
 def _ext_idx(S, ms):
     if not S.symbolic:
@@ -165,6 +147,7 @@ def _ik_requires(S, a):
     E = _ext_idx(S, a.self)
     ins = a.self.inputs
     return {
+        "has an output": S.len(a.self.outputs) >= 1,
         "positive-dims": all_pos(S, a.shape),
         "input names pairwise distinct": S.forall(0, S.len(ins), lambda i: S.forall(0, S.len(ins), lambda j: S.implies(
             i != j, lambda: S.not_(S.eq(ins[i].name, ins[j].name))))),
@@ -207,7 +190,7 @@ mapspec_input_keys = Contract(
          "duplicate output axes (later one wins in the dicts) are excluded by the precondition",
 )
 
-ALL += [mapspec_external_indices, mapspec_input_keys]
+ALL += [mapspec_input_keys]
 
 
 # ---- _validate_shapes / MapSpec.shape (C08, C12) ----------------------------------------------------------------------
@@ -244,3 +227,89 @@ validate_shapes = Contract(
          "whose rank differs from the array's spec, an internal shape for a name that is not an output",
 )
 ALL += [validate_shapes]
+
+
+# ---- index sets of a MapSpec: ArraySpec.indices, MapSpec.output_indices / input_indices / external_indices ------------
+from pyvc.types import TSet  # noqa: E402
+
+def _has_axis(S, x, index):
+    """x carries the index `index` on one of its axes (named spec predicate)."""
+    return S.opaque("spec:has_axis", [x, index], lambda x_, ix_: S.exists(0, S.len(x_.axes), lambda q: S.and_(
+        S.not_(S.is_none(x_.axes[q])), lambda: S.eq(S.some(x_.axes[q]), ix_))))
+
+
+def _named(S, x, upto):
+    """Boolean array: axis position q of x is named (not ':')."""
+    return S.defarray("spec:named-axis", [x.axes] if S.symbolic else [], lambda q: S.and_(
+        0 <= q, q < S.len(x.axes), lambda: S.not_(S.is_none(x.axes[q]))), S.len(x.axes))
+
+
+def _indices_clauses(S, x, r):
+    C = _named(S, x, None)[0]
+    return {
+        "the named axes, in order": S.and_(S.len(r) == S.cnt(C, S.len(x.axes)), lambda: S.forall(
+            0, S.len(x.axes), lambda q: S.implies(C[q], lambda: S.eq(r[S.cnt(C, q)], S.some(x.axes[q]))))),
+        "nothing else": S.forall(0, S.len(r), lambda t: S.exists(0, S.len(x.axes), lambda q: S.and_(
+            S.not_(S.is_none(x.axes[q])), lambda: S.eq(r[t], S.some(x.axes[q]))))),
+        "membership: exactly the names of the named axes": S.forall_key(
+            TStr, lambda nm: S.contains(r, nm) == _has_axis(S, x, nm),
+            domain=() if S.symbolic else list(r) + [y for y in x.axes if y is not None] + ["zz"]),
+    }
+
+
+arrayspec_indices = Contract(
+    f"{F}::ArraySpec.indices", params={"self": ArraySpecT}, returns=SS,
+    axioms=lambda S, a: [_named(S, a.self, None)[1]],
+    ensures=lambda S, a, r, post: _indices_clauses(S, a.self, r),
+)
+
+mapspec_output_indices = Contract(
+    f"{F}::MapSpec.output_indices", params={"self": MapSpecT}, returns=SS,
+    raises=[("IndexError", lambda S, a: S.len(a.self.outputs) == 0)],
+    axioms=lambda S, a: [_named(S, a.self.outputs[0], None)[1]],
+    ensures=lambda S, a, r, post: _indices_clauses(S, a.self.outputs[0], r),
+)
+
+mapspec_input_indices = Contract(
+    f"{F}::MapSpec.input_indices", params={"self": MapSpecT}, returns=TSet(TStr),
+    ensures=lambda S, a, r, post: {"exactly the names carried by some input": S.forall_key(
+        TStr, lambda nm: S.in_set(r, nm) == _some_input_has(S, a.self, nm),
+        domain=() if S.symbolic else list(r) + [x for y in a.self.inputs for x in y.axes if x is not None] + ["zz"])},
+)
+def _some_input_has(S, ms, nm):
+    return S.opaque("spec:some_input_has", [ms, nm], lambda ms_, nm_: S.exists(
+        0, S.len(ms_.inputs), lambda i: _has_axis(S, ms_.inputs[i], nm_)))
+
+
+def _oi(S, ms):
+    if S.symbolic:
+        return S.uf("fn:MapSpec.output_indices", SS, ms)
+    return list(ms.output_indices)
+
+
+def _ext_mask(S, ms):
+    oi = _oi(S, ms)
+    return S.defarray("spec:external-mask", [ms] if S.symbolic else [], lambda p: S.and_(
+        0 <= p, p < S.len(oi), lambda: _some_input_has(S, ms, oi[p])), S.len(oi))
+
+
+def _ext_ensures(S, a, r, post):
+    oi = _oi(S, a.self)
+    C = _ext_mask(S, a.self)[0]
+    return {
+        "the output indices some input carries, in output order": S.and_(
+            S.len(r) == S.cnt(C, S.len(oi)),
+            lambda: S.forall(0, S.len(oi), lambda p: S.implies(C[p], lambda: S.eq(r[S.cnt(C, p)], oi[p])))),
+        "membership": S.forall_key(TStr, lambda nm: S.contains(r, nm) == S.and_(
+            S.contains(oi, nm), lambda: _some_input_has(S, a.self, nm)),
+            domain=() if S.symbolic else list(r) + list(oi) + ["zz"]),
+    }
+
+
+mapspec_external_indices = Contract(
+    f"{F}::MapSpec.external_indices", params={"self": MapSpecT}, returns=SS,
+    requires=lambda S, a: {"has an output": S.len(a.self.outputs) >= 1},
+    axioms=lambda S, a: [_ext_mask(S, a.self)[1]],
+    ensures=_ext_ensures,
+)
+ALL += [arrayspec_indices, mapspec_output_indices, mapspec_input_indices, mapspec_external_indices]
